@@ -25,6 +25,8 @@ type replayResult struct {
 	Labels []string // failed assertion labels
 	Known  map[string][]string
 	Msg    string
+	// RaceWrite: two concurrent native runs of the harness raced on a write inside the library
+	RaceWrite bool
 }
 
 func pkgNameOf(file string) string {
@@ -38,6 +40,13 @@ func pkgNameOf(file string) string {
 
 // nativeReplay runs the harnesses natively (real compiled code, overlay build) on the given models.
 func nativeReplay(hfs []harnessFile, byRel map[string][]replayItem, workDir string) (map[string]replayResult, string, error) {
+	return nativeReplayMode(hfs, byRel, workDir, false)
+}
+
+// nativeReplayMode with race=true builds with the race detector and runs every item's harness in two goroutines
+// at once (VRT_RACE=1): a data race whose write is in the library (not in the harness or its runtime) confirms
+// that the run stores into something shared, even when the stored value equals the old one.
+func nativeReplayMode(hfs []harnessFile, byRel map[string][]replayItem, workDir string, race bool) (map[string]replayResult, string, error) {
 	out := map[string]replayResult{}
 	if err := os.MkdirAll(workDir, 0o755); err != nil {
 		return nil, "", err
@@ -95,19 +104,66 @@ func nativeReplay(hfs []harnessFile, byRel map[string][]replayItem, workDir stri
 		if err := os.WriteFile(itemsPath, idata, 0o644); err != nil {
 			return nil, "", err
 		}
-		cmd := exec.Command("go", "test", "-v", "-tags=verif", "-vet=off", "-count=1", "-overlay", ovPath, "-run", "^TestVrtReplay$", "-timeout", "600s", "./"+rel)
-		cmd.Dir = repoDir
-		cmd.Env = append(os.Environ(), "GOFLAGS=-mod=mod", "GOPROXY=off", "GOSUMDB=off", "GOTOOLCHAIN=local", "VRT_REPLAY="+itemsPath)
 		var buf bytes.Buffer
-		cmd.Stdout = &buf
-		cmd.Stderr = &buf
-		runErr := cmd.Run()
+		var runErr error
+		env := append(os.Environ(), "GOFLAGS=-mod=mod", "GOPROXY=off", "GOSUMDB=off", "GOTOOLCHAIN=local")
+		if !race {
+			cmd := exec.Command("go", "test", "-v", "-tags=verif", "-vet=off", "-count=1", "-overlay", ovPath, "-run", "^TestVrtReplay$", "-timeout", "600s", "./"+rel)
+			cmd.Dir = repoDir
+			cmd.Env = append(env, "VRT_REPLAY="+itemsPath)
+			cmd.Stdout = &buf
+			cmd.Stderr = &buf
+			runErr = cmd.Run()
+		} else {
+			// one race-instrumented test binary, one process per item (the detector reports a racing pair of locations once per process)
+			bin := filepath.Join(workDir, "race_"+relTag+".test")
+			cmd := exec.Command("go", "test", "-c", "-race", "-tags=verif", "-vet=off", "-overlay", ovPath, "-o", bin, "./"+rel)
+			cmd.Dir = repoDir
+			cmd.Env = append(env, "CGO_ENABLED=1")
+			cmd.Stdout = &buf
+			cmd.Stderr = &buf
+			if runErr = cmd.Run(); runErr == nil {
+				for k, it := range items {
+					one := filepath.Join(workDir, fmt.Sprintf("item_%s_%d.json", relTag, k))
+					d, _ := json.Marshal([]replayItem{it})
+					os.WriteFile(one, d, 0o644)
+					run := exec.Command(bin, "-test.run", "^TestVrtReplay$", "-test.v", "-test.timeout", "300s")
+					run.Dir = filepath.Join(repoDir, rel)
+					run.Env = append(env, "VRT_REPLAY="+one, "VRT_RACE=1", "GORACE=halt_on_error=0")
+					run.Stdout = &buf
+					run.Stderr = &buf
+					_ = run.Run() // the race detector makes the test fail: expected
+				}
+				os.Remove(bin)
+			}
+		}
 		logAll.WriteString(buf.String())
 		sc := bufio.NewScanner(&buf)
 		sc.Buffer(make([]byte, 1<<20), 1<<24)
 		cur := ""
+		inRace, wantFn, wantFile, raceFn := false, false, false, ""
 		for sc.Scan() {
 			l := sc.Text()
+			if race && cur != "" {
+				t := strings.TrimSpace(l)
+				switch {
+				case strings.HasPrefix(t, "WARNING: DATA RACE"):
+					inRace = true
+				case inRace && strings.HasPrefix(t, "=================="):
+					inRace = false
+				case inRace && (strings.HasPrefix(t, "Write at") || strings.HasPrefix(t, "Previous write at")):
+					wantFn = true
+				case inRace && wantFn:
+					wantFn, wantFile, raceFn = false, true, t
+				case inRace && wantFile:
+					wantFile = false
+					if !strings.Contains(raceFn, "/internal/vrt.") && !strings.Contains(t, "zz_verif") && strings.Contains(raceFn, "github.com/invopop/gobl") {
+						r := out[cur]
+						r.Labels = append(r.Labels, "race-write:"+strings.TrimSuffix(raceFn, "()")+" "+t)
+						out[cur] = r
+					}
+				}
+			}
 			switch {
 			case strings.HasPrefix(l, "VRT-ITEM "):
 				cur = strings.TrimPrefix(l, "VRT-ITEM ")
@@ -175,6 +231,15 @@ func replayFile(path string) int {
 		return 2
 	}
 	r := res[rec.Item.ID]
+	if rec.Kind == "frozen-write" && r.Result == "ok" {
+		// a store of an equal value: confirm with two concurrent runs under the race detector
+		rres, _, _ := nativeReplayMode(hfs, map[string][]replayItem{rec.Rel: {rec.Item}}, filepath.Join(work, "race"), true)
+		for _, l := range rres[rec.Item.ID].Labels {
+			if strings.HasPrefix(l, "race-write:") {
+				r.Result, r.Msg = "fail", l
+			}
+		}
+	}
 	fmt.Printf("replay %s harness=%s model=%v -> %s labels=%v %s\n", rec.Property, rec.Item.Harness, rec.Item.Model, r.Result, r.Labels, r.Msg)
 	if r.Result == "fail" || r.Result == "panic" {
 		fmt.Printf("VIOLATION property=%s replay=%s\n", rec.Property, path)
